@@ -8,7 +8,7 @@
    real state. *)
 From Coq Require Import ZArith Bool List String.
 From Sge Require Import Lib.Dec Model.Types Model.Orderbook Model.Mint Model.Chain
-     Proofs.MarketFacts Proofs.WagerLoop Proofs.Supply Proofs.Tables Proofs.CustodyLocal Proofs.Custody Witness.C01w.
+     Proofs.MarketFacts Proofs.WagerLoop Proofs.Supply Proofs.Tables Proofs.CustodyLocal Proofs.Custody Proofs.SubHist Proofs.Progress Witness.C01w.
 Import ListNotations.
 Open Scope Z_scope.
 
@@ -66,3 +66,16 @@ Theorem C01_custody_perms :
                     && mem_str a (map fst Gen.perms.macc_perms)) Gen.perms.sge_custody_accounts = true.
 Proof. exact custody_accounts_cannot_mint_or_burn. Qed.
 Print Assumptions C01_custody_perms.
+
+(* once every market is fully settled (its book marked settled) the three custody accounts are empty; and for one market: a settled book
+   means every participation paid, every bet settled, nothing owed on it (C05_book_settled_within says when that is reached) *)
+Theorem C01_drained : forall P bk supply vault MP t0 sw sd,
+  pr_bet_fee P <= pr_bet_min P -> 0 <= pr_bet_fee P ->
+  bget bk POOL = 0 -> bget bk HOUSEFEE = 0 -> bget bk BETFEE = 0 -> (forall a, SUBBASE <= a -> 0 <= bget bk a) ->
+  forall ops, Forall user_op ops ->
+  (forall m x, get_ms (run (init bk supply P vault MP t0 sw sd) ops) m = Some x -> bk_status (ms_book x) = BK_SETTLED) ->
+  bget (c_bank (run (init bk supply P vault MP t0 sw sd) ops)) POOL = 0 /\
+  bget (c_bank (run (init bk supply P vault MP t0 sw sd) ops)) HOUSEFEE = 0 /\
+  bget (c_bank (run (init bk supply P vault MP t0 sw sd) ops)) BETFEE = 0.
+Proof. exact drained. Qed.
+Print Assumptions C01_drained.
